@@ -66,7 +66,8 @@ def parse_output(out, res):
                 except ValueError as e:
                     raise TLCError("cannot decode tagged line: %s ... (%s)" % (buf[:200], e))
         elif ln.startswith("Error: Invariant ") and " is violated" in ln:
-            res.violated.append(ln.split()[2])
+            if ln.split()[2] not in res.violated:      # with -continue the same invariant is reported many times
+                res.violated.append(ln.split()[2])
             seen_error = True
         elif ln.startswith("Error: Action property ") or ln.startswith("Error: Temporal properties"):
             res.violated.append(ln[len("Error: "):].strip())
